@@ -126,6 +126,11 @@ structure Script where
   connectOk : Bool       -- rcmd_connect returned a descriptor
   stdout    : Str        -- bytes read from it before EOF (or before the time-out)
   timedOut  : Bool       -- the command time-out fired (state DSH_FAILED)
+  /-- HOW the expiry was noticed: `false` = the watchdog's SIGALRM interrupted xpoll (EINTR, an idle command),
+      `true` = the worker itself at the top of its poll loop (a command that keeps it busy with output; the
+      signal sent meanwhile was lost).  Both paths set `result = DSH_FAILED`, print the diagnostic, send SIGTERM
+      and leave the loop: the field has no influence on `hostOf` — that is what C08.timeout_nonzero states. -/
+  viaLoopTop : Bool := false
   rv        : Int        -- value of rcmd_destroy
   deriving Repr
 
@@ -171,10 +176,12 @@ def exitStatus (r : Int) : Nat := (r % 256).toNat
 inductive Run where
   | refused                       -- opt_verify failed / errx during option processing
   | started (hs : List Host)
+  | aborted                       -- errx while the run is under way: batch-mode ^C, a second ^C within a second
   deriving Repr
 
 def mainExit (fx : Fixes) (fl : Flags) : Run → Nat
   | .refused => 1
+  | .aborted => 1                 -- _handle_sigint: errx ("... aborting.") = exit (1)
   | .started hs => if fl.k && hs.any kFails then 1 else exitStatus (dshReturn fx fl hs)
 
 /-! ### from outcomes to scripts: the two status channels -/
